@@ -31,12 +31,74 @@ def TT.names : List String :=
    "BREAK", "CONTINUE", "LOGICAL_AND", "CLASS", "ELSE", "FALSE", "FUN", "FOR", "IF", "NIL", "LOGICAL_OR",
    "PRINT", "RETURN", "TRUE", "VAR", "WHILE", "EOF"]
 
+/-- the Go constant's name -/
+def TT.name : TT → String
+  | .LEFT_PAREN => "LEFT_PAREN"
+  | .RIGHT_PAREN => "RIGHT_PAREN"
+  | .LEFT_BRACE => "LEFT_BRACE"
+  | .RIGHT_BRACE => "RIGHT_BRACE"
+  | .LEFT_BRACKET => "LEFT_BRACKET"
+  | .RIGHT_BRACKET => "RIGHT_BRACKET"
+  | .COMMA => "COMMA"
+  | .DOT => "DOT"
+  | .MINUS => "MINUS"
+  | .PLUS => "PLUS"
+  | .SEMICOLON => "SEMICOLON"
+  | .COLON => "COLON"
+  | .SLASH => "SLASH"
+  | .STAR => "STAR"
+  | .AND => "AND"
+  | .OR => "OR"
+  | .XOR => "XOR"
+  | .POWER => "POWER"
+  | .NOT => "NOT"
+  | .MODULO => "MODULO"
+  | .BANG => "BANG"
+  | .BANG_EQUAL => "BANG_EQUAL"
+  | .EQUAL => "EQUAL"
+  | .EQUAL_EQUAL => "EQUAL_EQUAL"
+  | .GREATER => "GREATER"
+  | .GREATER_EQUAL => "GREATER_EQUAL"
+  | .LEFT_SHIFT => "LEFT_SHIFT"
+  | .LESS => "LESS"
+  | .LESS_EQUAL => "LESS_EQUAL"
+  | .RIGHT_SHIFT => "RIGHT_SHIFT"
+  | .IDENTIFIER => "IDENTIFIER"
+  | .STRING => "STRING"
+  | .NUMBER => "NUMBER"
+  | .BREAK => "BREAK"
+  | .CONTINUE => "CONTINUE"
+  | .LOGICAL_AND => "LOGICAL_AND"
+  | .CLASS => "CLASS"
+  | .ELSE => "ELSE"
+  | .FALSE => "FALSE"
+  | .FUN => "FUN"
+  | .FOR => "FOR"
+  | .IF => "IF"
+  | .NIL => "NIL"
+  | .LOGICAL_OR => "LOGICAL_OR"
+  | .PRINT => "PRINT"
+  | .RETURN => "RETURN"
+  | .TRUE => "TRUE"
+  | .VAR => "VAR"
+  | .WHILE => "WHILE"
+  | .EOF => "EOF"
+
 def TT.idx (t : TT) : Nat := (TT.all.idxOf t)
 
 def TT.ofName? (s : String) : Option TT :=
   match TT.names.idxOf? s with
   | some i => TT.all[i]?
   | none => none
+
+/-- ways a model run ends without an outcome: the fuel bound was hit (the Go code would still be
+    running), a partial host operation was reached unguarded (the Go code would panic), or a
+    value too deep to print (cyclic: the Go code recurses until its stack is exhausted) -/
+inductive Abn
+  | fuel
+  | panic
+  | cyclic
+  deriving DecidableEq, Repr, Inhabited
 
 /-- literal payload of a token -/
 inductive Lit
